@@ -1055,7 +1055,16 @@ static bool add_type_info(char *spec, size_t len, Dwarf_Die *die, struct arg_dat
 		break;
 	case ARG_FMT_FLOAT:
 		if (ad->idx) { /* for arguments */
-			snprintf(spec, len, "fparg%d/%zu", ++ad->fpidx, data.size);
+			if (data.size == 80 && host_cpu_arch() == UFT_CPU_X86_64) {
+				/*
+				 * x87 long double is passed in memory: it takes no
+				 * xmm register, so the next float is not one further.
+				 */
+				snprintf(spec, len, "fparg%d/%zu", ad->fpidx + 1, data.size);
+			}
+			else {
+				snprintf(spec, len, "fparg%d/%zu", ++ad->fpidx, data.size);
+			}
 			/* do not increase index of integer arguments */
 			--ad->idx;
 		}
